@@ -153,7 +153,7 @@ def check_signs(prog, report, which=('driver', 'hh2', 'hier', 'residual')):
             m, r = (acc.form(a) for a in solve.args)
             if m is not None and r is not None:
                 form = _add(m, r, -1)
-                ok = proportional(form, REF) and set(form) >= {'V'}
+                ok = proportional(form, REF) and set(form) == set(REF)
                 detail = 'V Phi - rhs = %s' % form
         report.check(ok, 'R-signs', 'driver linear system',
                      fi.where(solve) if solve is not None else fi.where(),
@@ -170,8 +170,8 @@ def check_signs(prog, report, which=('driver', 'hh2', 'hier', 'residual')):
             m, r = (acc.form(a) for a in solve.args)
             if m is not None and r is not None:
                 form = _add(m, r, -1)
-                ok = proportional(form, REF)
-                detail = 'V Phi_fine - rhs = %s' % form
+                ok = proportional(form, REF) and set(form) == set(REF)
+                detail = 'V Phi_fine - rhs = %s (all three terms must be present when both data are given)' % form
         report.check(ok, 'R-signs', 'h-h/2 fine system', fi.where(),
                      'the fine system has the same sign convention as the '
                      'driver; ' + detail,
@@ -191,7 +191,7 @@ def check_signs(prog, report, which=('driver', 'hh2', 'hier', 'residual')):
                                                             'np.abs'):
                 f = acc.form(n.args[0])
                 if f is not None and 'V' in f:
-                    ok = proportional(f, REF)
+                    ok = proportional(f, REF) and set(f) == set(REF)
                     detail = '|%s|' % f
         report.check(ok, 'R-signs', 'hierarchical residual functional',
                      fi.where(),
